@@ -41,7 +41,7 @@ def size_of(scn) -> dict:
     th = scn.get("threads")
     if th:
         out["ops"] = sum(len(o) for o in th.get("ops", []))
-        out["switches"] = len([d for d in th.get("decisions", []) if d])
+        out["switches"] = len(th.get("switches") or [])
     return out
 
 
